@@ -66,6 +66,22 @@ def parseBytes (raw : Bytes) : Option Bytes :=
   let pad := raw.length % 4 == 0
   Base64.decode url pad raw
 
+/-- enum: a number is tried first (`json.Unmarshal` into an int32 — so `null` is the zero value
+for every enum, and proto3's open enums accept a number without a declared value), then the
+text is looked up among the declared value names (`names`, in declaration order). -/
+def lookupName (names : List (Bytes × Int)) (raw : Bytes) : Option Int :=
+  match names with
+  | [] => none
+  | (n, v) :: rest => if n == raw then some v else lookupName rest raw
+
+def parseEnum (names : List (Bytes × Int)) (raw : Bytes) : Option Int :=
+  match parseInt ⟨true, 32⟩ raw with
+  | some x => some x
+  | none => lookupName names raw
+
+/-- string: the text itself, byte for byte. -/
+def parseString (raw : Bytes) : Bytes := raw
+
 /-- decimal text of a natural number (`strconv.FormatUint`). -/
 def printNatAux : Nat → Nat → Bytes → Bytes
   | 0, _, acc => acc
